@@ -233,7 +233,9 @@ def eff3(ctx, pid):
         key_expr, val_expr = tgt.slice, e.node.value
         c = "dbwrite:%s:%s" % (fkey(f), util.norm_src(e.node))
         n, bad, need = _check_store_bound(ctx, f, e.node, key_expr, val_expr, c)
-        if bad is not None:
+        if bad is not None and (util.opaque_heads(bad[0]) or util.opaque_heads(bad[1])):
+            ctx.unsure(c, e.where(), "db key `%s` / stored value `%s` are elements of an accumulator the engine does not track: cannot decide key = keccak(value)" % (tstr(bad[0])[:60], tstr(bad[1])[:60]))
+        elif bad is not None:
             ctx.bad(c, e.where(), "db key `%s` is not keccak of the stored value `%s`" % (tstr(bad[0])[:60], tstr(bad[1])[:60]),
                     witness={"key": tstr(bad[0]), "value": tstr(bad[1])})
         elif n == 0:
